@@ -951,6 +951,8 @@ pub struct CCase {
 
 #[derive(Default, Debug)]
 pub struct CStats {
+    /// independent time base: when this harness last saw an account's shares in the emissions bank change
+    pub last_share_change: std::collections::BTreeMap<solana_program::pubkey::Pubkey, i64>,
     pub built: bool,
     pub setup_ok: bool,
     pub claims_positive: u64,
@@ -1074,7 +1076,7 @@ const MIN_EMISSIONS_START_TIME_U: u64 = 1_681_989_983;
 
 /// exact emissions the statement promises for one claim, and the truncation allowance
 /// returns (exact, allowance, dust)
-fn expected_claim(bank_pre: &Bank, asv: &Q, lsv: &Q, bal: Option<&Balance>, now: i64) -> (Q, Q, bool) {
+fn expected_claim(bank_pre: &Bank, asv: &Q, lsv: &Q, bal: Option<&Balance>, now: i64, model_last: Option<i64>) -> (Q, Q, bool) {
     let Some(bal) = bal else { return (q_zero(), q_zero(), false) };
     let a = q_w(bal.asset_shares);
     let l = q_w(bal.liability_shares);
@@ -1102,7 +1104,15 @@ fn expected_claim(bank_pre: &Bank, asv: &Q, lsv: &Q, bal: Option<&Balance>, now:
         };
         (amt, true)
     };
-    let period: u64 = if bal.last_update < MIN_EMISSIONS_START_TIME_U { 0 } else { (now as u64).saturating_sub(bal.last_update) };
+    // The accrual period starts at the later of the on-chain timestamp and the time at which THIS
+    // HARNESS last saw the position's shares change (independent time base: a position cannot earn
+    // for a period in which it did not exist with that size, whatever the stored timestamp says).
+    let chain_last = bal.last_update;
+    let start = match model_last {
+        Some(m) if m >= 0 && (m as u64) > chain_last => m as u64,
+        _ => chain_last,
+    };
+    let period: u64 = if chain_last < MIN_EMISSIONS_START_TIME_U { 0 } else { (now as u64).saturating_sub(start) };
     let p = q_u(period);
     let y = q_u(SECONDS_PER_YEAR_U);
     let rate = q_u(bank_pre.emissions_rate);
@@ -1507,7 +1517,7 @@ pub fn run_c(c: &CCase, st: &mut CStats) -> Result<(), Fail> {
             if claimed && claim_time != now {
                 return fail("emissions:claim-time", format!("`{name}` moved the position's last_update to {claim_time} at clock {now}"));
             }
-            let (exact, allow, dust) = if claimed { expected_claim(&bank0, &q_w(bank1.asset_share_value), &q_w(bank1.liability_share_value), bal0, now) } else { (q_zero(), q_zero(), false) };
+            let (exact, allow, dust) = if claimed { expected_claim(&bank0, &q_w(bank1.asset_share_value), &q_w(bank1.liability_share_value), bal0, now, st.last_share_change.get(&m).copied()) } else { (q_zero(), q_zero(), false) };
             let lo_raw = if dust { q_zero() } else { q_max(&exact - &allow, q_zero()) };
             let lo = q_min(lo_raw, rem0.clone());
             let hi = q_min(&exact + &allow, rem0.clone());
@@ -1540,6 +1550,14 @@ pub fn run_c(c: &CCase, st: &mut CStats) -> Result<(), Fail> {
             }
             if exact.is_zero() && bal0.is_some() && bank0.emissions_rate > 0 && bank0.flags & 3 != 3 {
                 st.claims_zero_inactive += 1;
+            }
+        }
+        // ---- independent time base: remember when each account's shares in the emissions bank changed
+        for (k, a1) in all_maccts(&post) {
+            let s1 = find_balance(&a1, &ekey).map(|b| (b.asset_shares, b.liability_shares));
+            let s0 = read_macct(&pre, &k).as_ref().and_then(|a| find_balance(a, &ekey).map(|b| (b.asset_shares, b.liability_shares)));
+            if s0 != s1 {
+                st.last_share_change.insert(k, now);
             }
         }
         // ---- payouts
